@@ -71,10 +71,30 @@ def is_user_call(t):
     return False
 
 
+OPPOSITE = {'Ok': 'Err', 'Err': 'Ok', 'Some': 'None', 'None': 'Some', 'Continue': 'Break', 'Break': 'Continue'}
+ENUMS = ('std::result::Result', 'std::option::Option', 'std::ops::ControlFlow')
+TESTS = {'is_err': 'Err', 'is_ok': 'Ok', 'is_some': 'Some', 'is_none': 'None'}
+# combinators whose result variant is a function of the receiver's variant
+CARRY = {'map_err': {'Ok': 'Ok', 'Err': 'Err'}, 'map': {'Ok': 'Ok', 'Err': 'Err', 'Some': 'Some', 'None': 'None'}, 'ok_or': {'Some': 'Ok', 'None': 'Err'},
+         'ok_or_else': {'Some': 'Ok', 'None': 'Err'}, 'ok': {'Ok': 'Some', 'Err': 'None'}, 'err': {'Ok': 'None', 'Err': 'Some'},
+         'branch': {'Ok': 'Continue', 'Err': 'Break', 'Some': 'Continue', 'None': 'Break'}, 'into_future': None, 'from': None, 'into': None}
+
+
+def _kill(fl, l):
+    return {f for f in fl if not (isinstance(f, tuple) and ((f[0] in ('var', 'test', 'retvar') and f[1] == l) or (f[0] == 'test' and f[2] == l)))}
+
+
+def _var_of(fl, l):
+    for f in fl:
+        if isinstance(f, tuple) and f[0] == 'var' and f[1] == l:
+            return f[2]
+    return None
+
+
 class Exit:
-    __slots__ = ('kind', 'vec', 'key', 'flags')
-    def __init__(self, kind, vec, key, flags):
-        self.kind = kind; self.vec = vec; self.key = key; self.flags = flags
+    __slots__ = ('kind', 'vec', 'key', 'flags', 'retvar')
+    def __init__(self, kind, vec, key, flags, retvar=None):
+        self.kind = kind; self.vec = vec; self.key = key; self.flags = flags; self.retvar = retvar
 
 
 class BodyCtx:
@@ -172,7 +192,7 @@ class LedgerBase:
             return s
         Z = self.ZERO
         if b.path in self.in_progress:
-            return {'return': {Z}, 'unwind': set(), 'cancel': {Z}, 'unresumed': {Z}}
+            return {'return': {Z}, 'return_v': {(Z, None)}, 'unwind': set(), 'cancel': {Z}, 'unresumed': {Z}}
         self.in_progress.add(b.path)
         exits, parents = self.analyse(b)
         self.in_progress.discard(b.path)
@@ -183,6 +203,8 @@ class LedgerBase:
                     s['return_flags'].add(frozenset(f for f in e.flags if isinstance(f, str) and f in self.IGNORE_FLAGS))
                 continue
             s.setdefault(e.kind, set()).add(e.vec)
+            if e.kind == 'return':
+                s.setdefault('return_v', set()).add((e.vec, e.retvar))
         self.summaries[b.path] = s
         self.results[b.path] = (exits, parents)
         return s
@@ -282,6 +304,21 @@ class LedgerBase:
                     if s.kind == 'assign':
                         rv = s.rv
                         dst = s.place.local if s.place.is_local() else None
+                        # ---- variant facts (must-facts along this path; they prune infeasible arms of later switches)
+                        if dst is not None:
+                            inherit = []
+                            if rv.kind == 'use' and rv.ops[0].kind != 'const':
+                                sp = rv.ops[0].place
+                                if not sp.proj:
+                                    inherit = [(f[0],) + (dst,) + tuple(f[2:]) for f in fl if isinstance(f, tuple) and f[0] in ('var', 'test') and f[1] == sp.local]
+                                elif tuple(sp.proj) == ('@Ready', '.0'):
+                                    inherit = [('var', dst, f[2]) for f in fl if isinstance(f, tuple) and f[0] == 'retvar' and f[1] == sp.local and f[2]]
+                            fl = _kill(fl, dst)
+                            fl |= set(inherit)
+                            if rv.kind == 'agg' and rv.j.get('ak') == 'adt' and strip_generics(rv.j['adt']) in ENUMS:
+                                fl.add(('var', dst, rv.j['variant']))
+                        if rv.kind in ('ref', 'rawptr') and rv.j.get('mut') and not [e for e in rv.place.proj if e != '*'] and '*' not in rv.place.proj:
+                            fl = _kill(fl, rv.place.local)
                         for op in rv.ops:
                             if op.kind == 'move' and '*' not in op.place.proj:
                                 src_l = op.place.local
@@ -304,6 +341,7 @@ class LedgerBase:
                     elif s.kind == 'dead':
                         ini.discard(s.local)
                         fl = {f_ for f_ in fl if not (isinstance(f_, tuple) and f_[0] == 'pend' and f_[1] == s.local)}
+                        fl = _kill(fl, s.local)
                         lf = {(l, cp, pd) for (l, cp, pd) in lf if l != s.local}
                 note = ', '.join(notes)
                 t = blk.term
@@ -346,6 +384,31 @@ class LedgerBase:
                     pe = self.pend_call(b, an, bc, blk, t)
                     if pe is not None and dest is not None:
                         fl.add(('pend', dest, pe))
+                    # variant facts across the call
+                    recv_var = None; subject = None
+                    if t.args and t.args[0].kind != 'const' and not t.args[0].place.proj:
+                        a0l = t.args[0].place.local
+                        recv_var = _var_of(fl, a0l)
+                        # `x.is_err()`: the receiver is a reference to x
+                        dd = an.single_def(a0l)
+                        if dd and dd[0] == 'stmt' and dd[3].rv.kind == 'ref' and not dd[3].rv.place.proj:
+                            subject = dd[3].rv.place.local
+                    for a in t.args:
+                        if a.kind == 'move' and not a.place.proj:
+                            fl = _kill(fl, a.place.local)
+                    if dest is not None:
+                        fl = _kill(fl, dest)
+                        meth = sorted(names)[0].split('::')[-1] if names else ''
+                        if meth in TESTS and subject is not None and any(n.startswith(('std::result::Result::', 'std::option::Option::')) for n in names):
+                            fl.add(('test', dest, subject, TESTS[meth]))
+                        elif meth in CARRY and CARRY[meth] and recv_var in CARRY[meth] and any(n.startswith(('std::result::Result::', 'std::option::Option::', '<std::result::Result', '<std::option::Option')) or n.endswith('Try::branch') for n in names):
+                            fl.add(('var', dest, CARRY[meth][recv_var]))
+                        elif any(n.endswith('from_residual') for n in names):
+                            dty = b.locals[dest]['ty']
+                            if dty.startswith('std::result::Result<'):
+                                fl.add(('var', dest, 'Err'))
+                            elif dty.startswith('std::option::Option<'):
+                                fl.add(('var', dest, 'None'))
                     note2 = ', '.join(x for x in (note, ev) if x)
                     if evt is not None or cb is None:
                         ini_n = set(ini2)
@@ -395,12 +458,15 @@ class LedgerBase:
                         if t.target is not None:
                             emit('normal', t.target, v, ini2, lf_n, fl, t.line, note)
                         continue
-                    for rv_ in (sm['return'] or set()):
+                    for rv_, rvar in (sm.get('return_v') or {(x_, None) for x_ in sm['return']}):
                         ini_n = set(ini2)
                         if dest is not None and dest in tr:
                             ini_n.add(dest)
+                        fl_r = set(fl)
+                        if dest is not None and rvar:
+                            fl_r.add(('var', dest, rvar))
                         if t.target is not None:
-                            emit('normal', t.target, vadd(v, rv_), ini_n, lf2, fl, t.line, (note + ', ' if note else '') + cb.name.split('::')[-1] + '()')
+                            emit('normal', t.target, vadd(v, rv_), ini_n, lf2, fl_r, t.line, (note + ', ' if note else '') + cb.name.split('::')[-1] + '()')
                     for ff in sm.get('return_flags', ()):
                         # the callee can return on a path that is outside the books (pool gone / closed): so is the rest of this path
                         ini_n = set(ini2)
@@ -445,6 +511,24 @@ class LedgerBase:
                     for lab, tgt in t.switch_arms():
                         v2 = v; ini2 = set(ini); lf2 = set(lf); fl2 = set(fl)
                         note2 = note
+                        # variant facts: prune arms that contradict what is known on this path, learn from the arm taken
+                        if t.j.get('dty') == 'bool' and t.discr.kind != 'const' and not t.discr.place.proj and lab in ('true', 'false'):
+                            tf = [f for f in fl2 if isinstance(f, tuple) and f[0] == 'test' and f[1] == t.discr.place.local]
+                            dead_arm = False
+                            for f in tf:
+                                want = f[3] if lab == 'true' else OPPOSITE.get(f[3])
+                                have = _var_of(fl2, f[2])
+                                if have is not None and want is not None and have != want:
+                                    dead_arm = True
+                                elif want is not None:
+                                    fl2.add(('var', f[2], want))
+                            if dead_arm:
+                                continue
+                        if on is not None and not on['pr'] and lab in OPPOSITE:
+                            have = _var_of(fl2, on['l'])
+                            if have is not None and have in OPPOSITE and have != lab:
+                                continue
+                            fl2.add(('var', on['l'], lab))
                         if on is not None and not on['pr'] and tr.get(on['l'], '').startswith('opt') and lab == 'None':
                             ini2.discard(on['l'])
                         if on is not None and not on['pr']:
@@ -467,14 +551,17 @@ class LedgerBase:
                             if lab == 'Ready':
                                 sm = self.summary(cb)
                                 lf3 = {(l, cp, pd) for (l, cp, pd) in lf2 if cp != cb.path}
-                                for rv_ in (sm['return'] or set()):
-                                    emit('normal', tgt, vadd(v2, rv_), ini2, lf3, fl2, t.line, (note + ', ' if note else '') + '%s completed' % cb.name.split('::')[-2])
+                                for rv_, rvar in (sm.get('return_v') or {(x_, None) for x_ in sm['return']}):
+                                    fl3 = set(fl2)
+                                    if rvar:
+                                        fl3.add(('retvar', on['l'], rvar))
+                                    emit('normal', tgt, vadd(v2, rv_), ini2, lf3, fl3, t.line, (note + ', ' if note else '') + '%s completed' % cb.name.split('::')[-2])
                                 for ff in sm.get('return_flags', ()):
                                     emit('normal', tgt, v2, ini2, lf3, fl2 | set(ff), t.line, (note + ', ' if note else '') + '%s completed [%s]' % (cb.name.split('::')[-2], ','.join(sorted(ff))))
                                 continue
                         emit('normal', tgt, v2, ini2, lf2, fl2, t.line, note2)
                 elif t.kind == 'return':
-                    exits.append(Exit('return', v, (bb, st), flags))
+                    exits.append(Exit('return', v, (bb, st), flags, _var_of(fl, 0)))
                 elif t.kind == 'resume':
                     exits.append(Exit('unwind', v, (bb, st), flags))
                 elif t.kind == 'coroutine_drop':
@@ -701,6 +788,12 @@ class UnmanagedLedger(LedgerBase):
         bc = BodyCtx()
         bc.queue = {blk.idx: m for blk, m in r.queue_calls(b)}
         bc.sems = {w for x, w in r.sem_calls(b, 'try_acquire') + r.sem_calls(b, 'acquire')}
+        if not bc.sems:
+            # the permit may come out of an awaited local helper: look at the acquisitions in the call region
+            for p_ in self.prog.region([b.path]):
+                cb = self.prog.bodies.get(p_)
+                if cb is not None and self.is_local(cb) and p_ != b.path:
+                    bc.sems |= {w for x, w in r.sem_calls(cb, 'try_acquire') + r.sem_calls(cb, 'acquire')}
         bc.upgrade_dest = set(); bc.closed_dest = set(); bc.otake = set()
         for blk in b.blocks:
             t = blk.term
